@@ -46,10 +46,10 @@ type Program struct {
 	Prog    *ssa.Program
 	SSAPkgs map[string]*ssa.Package
 
-	cgOnce sync.Once
-	cg     *callgraph.Graph
+	cgOnce  sync.Once
+	cg      *callgraph.Graph
 	chaOnce sync.Once
-	chaG   *callgraph.Graph
+	chaG    *callgraph.Graph
 
 	allOnce sync.Once
 	all     map[*ssa.Function]bool
